@@ -605,9 +605,54 @@ def key_text(k):
     return k if re.match(r"^[A-Za-z_][A-Za-z0-9_]*( [A-Za-z_][A-Za-z0-9_]*)*$", k) and k not in KEYWORDS else esc(k)
 
 
-def p(n):
-    """operand rendering: atoms bare, everything else parenthesised"""
+_CHAIN = [False]
+POSTFIX = ("path", "filter", "call", "calln")
+
+
+def p(n, tail=False, head=False):
+    """operand rendering: atoms bare, everything else parenthesised. In chain mode (r_chain) also bare: the head of a path / filter /
+    invocation that is itself a postfix chain or a literal list / context, operands of arithmetic and comparison that are postfix chains,
+    and the last sub-expression of for / some / every / function / if when it is an arithmetic expression, a comparison or a chain."""
+    if n[0] in ATOMS:
+        return r(n)
+    if _CHAIN[0]:
+        if head and n[0] in POSTFIX + ("list", "ctx"):
+            return r(n)
+        if not head and not tail and n[0] in POSTFIX:
+            return r(n)
+        if tail and n[0] in POSTFIX + ("arith", "cmp"):
+            return r(n)
+    return "(" + r(n) + ")"
+
+
+def pp(n):
+    """operand rendering that never depends on the mode (end points of a range: `a.k..b` would put a path next to the dots)"""
     return r(n) if n[0] in ATOMS else "(" + r(n) + ")"
+
+
+_PATH3_AFTER_OPEN = None
+
+
+def r_chain(n):
+    """rendering with fewer parentheses (see p); None when the text would contain the trigger of the known parser finding
+    C06/path-after-open-bracket (a path of three or more names directly after an opening bracket)"""
+    global _PATH3_AFTER_OPEN
+    import re
+    if _PATH3_AFTER_OPEN is None:
+        w = r"[A-Za-z_][A-Za-z_0-9]*"
+        _PATH3_AFTER_OPEN = re.compile(r"[\(\[]\s*%s\s*\.\s*%s\s*\.\s*%s" % (w, w, w))
+    _CHAIN[0] = True
+    try:
+        t = r(n)
+    finally:
+        _CHAIN[0] = False
+    if _PATH3_AFTER_OPEN.search(t):
+        return None
+    # a path to the entry `zz` (the generator's name for an entry that does not exist, bound nowhere): a word after it would be read as a
+    # further word of that unknown name; the text keeps it in front of a closing bracket or a comma
+    if re.search(r"\.zz(?!\s*[\)\],}]|\s*$)", t):
+        return None
+    return t
 
 
 def r(n):
@@ -633,7 +678,7 @@ def r(n):
     if t in ("and", "or"):
         return "%s %s %s" % (p(n[1]), t, p(n[2]))
     if t == "if":
-        return "if %s then %s else %s" % (p(n[1]), p(n[2]), p(n[3]))
+        return "if %s then %s else %s" % (p(n[1]), p(n[2]), p(n[3], tail=True))
     if t == "between":
         return "%s between %s and %s" % (p(n[1]), p(n[2]), p(n[3]))
     if t == "in":
@@ -646,26 +691,26 @@ def r(n):
     if t == "ctx":
         return "{" + ", ".join("%s: %s" % (key_text(k), r(e)) for k, e in n[1]) + "}"
     if t == "path":
-        return "%s.%s" % (p(n[1]), n[2])
+        return "%s.%s" % (p(n[1], head=True), n[2])
     if t == "filter":
-        return "%s[%s]" % (p(n[1]), r(n[2]))
+        return "%s[%s]" % (p(n[1], head=True), r(n[2]))
     if t == "for":
         parts = []
         for var, d in n[1]:
             if d[0] == "dr":
-                parts.append("%s in %s..%s" % (var, p(d[1]), p(d[2])))
+                parts.append("%s in %s..%s" % (var, pp(d[1]), pp(d[2])))
             else:
                 parts.append("%s in %s" % (var, p(d[1])))
-        return "for %s return %s" % (", ".join(parts), p(n[2]))
+        return "for %s return %s" % (", ".join(parts), p(n[2], tail=True))
     if t in ("some", "every"):
-        return "%s %s satisfies %s" % (t, ", ".join("%s in %s" % (v, p(e)) for v, e in n[1]), p(n[2]))
+        return "%s %s satisfies %s" % (t, ", ".join("%s in %s" % (v, p(e)) for v, e in n[1]), p(n[2], tail=True))
     if t == "fn":
         ps = ", ".join(v if ty is None else "%s: %s" % (v, ty) for v, ty in n[1])
-        return "function(%s) %s" % (ps, p(n[2]))
+        return "function(%s) %s" % (ps, p(n[2], tail=True))
     if t == "call":
-        return "%s(%s)" % (p(n[1]), ", ".join(r(a) for a in n[2]))
+        return "%s(%s)" % (p(n[1], head=True), ", ".join(r(a) for a in n[2]))
     if t == "calln":
-        return "%s(%s)" % (p(n[1]), ", ".join("%s: %s" % (k, r(a)) for k, a in n[2]))
+        return "%s(%s)" % (p(n[1], head=True), ", ".join("%s: %s" % (k, r(a)) for k, a in n[2]))
     raise ValueError(t)
 
 
